@@ -1,7 +1,7 @@
 (* C12 property theorems. This file contains only statements closed by
    [exact lemma] and Print Assumptions. *)
 From V Require Import Common.Base C12.Hex C12.ColorSpec C12.HexProofs gen.ColorTablesGen C12.TablesProofs.
-From V Require Import C12.Cascade C12.CascadeProofs C12.Mangle C12.MangleProofs C12.MergeProofs C12.MangleRulesProofs.
+From V Require Import C12.Cascade C12.CascadeProofs C12.Mangle C12.MangleProofs C12.MergeProofs C12.MangleRulesProofs C12.LayerCollapse C12.MangleTreeProofs.
 From V Require Import C12.NumberCss C12.NumberSpec C12.NumberProofs C12.ShiftProofs.
 
 (* compactHex undoes expandHex on every 16-bit value (0xABCD -> 0xAABBCCDD -> 0xABCD) *)
@@ -67,24 +67,54 @@ Theorem adjacent_merge_keeps_winner : forall w pre conds layer s1 s2 ds post e p
 Proof. exact adjacent_merge_keeps_winner_all. Qed.
 Print Assumptions adjacent_merge_keeps_winner.
 
-(* mangleRules as a whole on one rule list (empty-rule removal, unwrapping of a
-   nested @media that repeats an enclosing one, adjacent merging with the
-   prevNonComment bookkeeping, then duplicate removal when not at top level),
-   in any context whose conditions include the enclosing @media queries, in
-   every world where the selectors esbuild calls safe are understood and dead
-   selectors match nothing.  PARTIAL: rule lists in which "@layer a { @layer b
-   {..} }" would be collapsed to "@layer a.b {..}" are excluded (no_collapse);
-   that rewrite is tied by the correspondence and oracle runs only. *)
-Theorem mangle_rules_keeps_winner_partial : forall w conds layer encl,
+(* mangleRules as a whole on one rule list - empty-rule removal, layer
+   collapsing ("@layer a { @layer b {X} }" => "@layer a.b {X}"), unwrapping of a
+   nested @media that repeats an enclosing one, adjacent merging (declarations
+   only, fix 5a4c9dc) with the prevNonComment bookkeeping, then duplicate
+   removal when not at top level - in any context whose conditions include the
+   enclosing @media queries, in every world where the selectors esbuild calls
+   safe are understood and dead selectors match nothing: every winner is
+   unchanged.  (Replaces mangle_rules_keeps_winner_partial: no rule list is
+   excluded any more.) *)
+Theorem mangle_rules_keeps_winner : forall w conds layer encl,
   (forall q, In q encl -> In q conds) ->
   (forall s, s_safe s = true -> sel_understood w (s_id s) = true) ->
   (forall s e, s_dead s = true -> matches w (s_id s) e = false) ->
-  forall rules top, Forall no_collapse rules ->
-  forall pre post e p,
+  forall rules top pre post e p,
   winner w (pre ++ flatten_list conds layer (mangle_rules encl rules top) ++ post) e p =
   winner w (pre ++ flatten_list conds layer rules ++ post) e p.
 Proof. exact mangle_rules_keeps_winner_all. Qed.
-Print Assumptions mangle_rules_keeps_winner_partial.
+Print Assumptions mangle_rules_keeps_winner.
+
+(* THE WHOLE RULE TREE.  mangle_sheet is the minifier pass over a complete style
+   sheet as the parser and the linker perform it: every nested rule list
+   (@media / @supports / @container / @layer bodies, to any depth) is mangled
+   children first with the @media rules enclosing it, every style rule loses
+   duplicate selectors and duplicate declarations, and the cross-file duplicate
+   removal runs over the top level.  For every sheet (all rule kinds of the
+   model: style rules with declarations, @media, @supports/@container, @layer
+   statements and blocks incl. anonymous, opaque at-rules, comments, imports),
+   every element, every property and every world (truth of every condition,
+   understood value syntaxes, matching, specificity) in which safe selectors are
+   understood and dead selectors match nothing, the cascade winner is unchanged.
+   Not in the model (oracle only): style rules with nested rules, @scope. *)
+Theorem mangle_sheet_keeps_winner : forall w,
+  (forall s, s_safe s = true -> sel_understood w (s_id s) = true) ->
+  (forall s e, s_dead s = true -> matches w (s_id s) e = false) ->
+  forall rules e p,
+  winner w (flatten_list [] [] (mangle_sheet rules)) e p = winner w (flatten_list [] [] rules) e p.
+Proof. exact mangle_sheet_keeps_winner_all. Qed.
+Print Assumptions mangle_sheet_keeps_winner.
+
+(* the layer-order lemma behind layer collapsing: a layer statement immediately
+   followed by a statement for an extension of its path, under the same
+   conditions, is redundant (the declared list loses one entry, positions shift,
+   no comparison of two strengths changes) *)
+Theorem layer_statement_prefix_redundant : forall w conds p n pre post e pr,
+  winner w (pre ++ [stmt_item conds (p ++ n)] ++ post) e pr =
+  winner w (pre ++ [stmt_item conds p; stmt_item conds (p ++ n)] ++ post) e pr.
+Proof. exact stmt_prefix_redundant. Qed.
+Print Assumptions layer_statement_prefix_redundant.
 
 (* mangleNumber keeps the exact value (CSS Syntax 3 "convert a string to a
    number", as an exact pair m * 10^e) of every CSS number token: every sign,
